@@ -1,4 +1,5 @@
 import VC2.Gen.Dispatch
+import VC2.Model.BitIODriver
 open VC2 VC2.Gen
 
 def parseInts (ws : List String) : Option (List Int) :=
@@ -20,6 +21,9 @@ def handleKernel (ws : List String) : String :=
 def step (line : String) : String :=
   match (line.trimAscii.toString.splitOn " ").filter (· ≠ "") with
   | "k" :: rest => handleKernel rest
+  | "rd" :: rest => VC2.Model.BitIO.handleIO "rd" rest
+  | "dd" :: rest => VC2.Model.BitIO.handleIO "dd" rest
+  | "wr" :: rest => VC2.Model.BitIO.handleIO "wr" rest
   | _ => "bad-op"
 
 partial def loop (h : IO.FS.Stream) (out : IO.FS.Stream) : IO Unit := do
